@@ -34,7 +34,15 @@ var c14RegTmpls = []c14Tmpl{
 	{"E|D", [][]string{{"exists"}, {"del"}}, []string{"cold"}},
 	{"G;S", [][]string{{"get", "set"}}, []string{"cold"}},
 	{"G;D", [][]string{{"get", "del"}}, []string{"cold"}},
+	// TTL argument classes on a key that is already cached
+	{"Sn", [][]string{{"setneg"}}, []string{"warm"}},
+	{"Sn|G", [][]string{{"setneg"}, {"get"}}, []string{"warm"}},
+	{"G;Sn", [][]string{{"get", "setneg"}}, []string{"cold"}},
+	{"S;Sn", [][]string{{"set", "setneg"}}, []string{"absent"}},
+	{"St", [][]string{{"settiny"}}, []string{"warm"}},
 }
+
+var c14NegTTLs = []string{"neg1ns", "neg1s", "past"}
 
 // single-threaded list templates run on the raw-memory topology (real *memory.Storage
 // as cache tier, persistence on)
@@ -105,6 +113,13 @@ func c14ScenariosOn(topos []c14Topo, tmpls []c14Tmpl, list bool) []*c14Scenario 
 							for j, k := range kinds {
 								st := c14Step{Node: node, Kind: k}
 								switch k {
+								case "setneg", "settiny":
+									st.Kind = "set"
+									st.Arg = fmt.Sprintf("v%d_%d", i+1, j+1)
+									st.TTL = "tiny"
+									if k == "setneg" {
+										st.TTL = c14NegTTLs[n%len(c14NegTTLs)]
+									}
 								case "set":
 									st.Arg = fmt.Sprintf("v%d", i+1)
 								case "append":
@@ -194,6 +209,12 @@ func (a *c14Agg) add(sc *c14Scenario, fault *c14Fault, s *vk.Sched, out *c14Outc
 	}
 	if out.Overlap {
 		run.Count("list_overlap|"+cat, 1)
+	}
+	for cls, c := range out.TTLSets {
+		if cls != "tiny" {
+			cls = "negative"
+		}
+		run.Count("ttl_sets_judged|"+cls, int64(c))
 	}
 	if out.Concurrent {
 		run.Count("list_updates_concurrent|"+cat, 1)
@@ -422,6 +443,8 @@ func TestVerifC14Register(t *testing.T) {
 	run.Floor("cross_node_reads", 500)
 	run.Floor("route_ops_checked", 5000)
 	run.Floor("key_prefixes_covered", 36)
+	run.Floor("ttl_sets_judged|negative", 200)
+	run.Floor("ttl_sets_judged|tiny", 50)
 	run.Floor("window_miss_then_mutation|persistent", 1)
 	run.Floor("window_miss_then_mutation|sharedpersistent", 1)
 }
